@@ -10,6 +10,7 @@ import (
 	"encoding/base64"
 	"encoding/json"
 	"fmt"
+	"math"
 	"math/big"
 	"reflect"
 	"sort"
@@ -52,6 +53,7 @@ type protoRec struct {
 	Redacts  string   `json:"redacts"`
 	Num      string   `json:"num"`
 	Lim      string   `json:"lim"`
+	Big      string   `json:"big"` // "mid": the event is large in itself (content key zz_big of 40 KiB)
 	Con      classMap `json:"con"`
 	TpiObj   bool     `json:"tpiobj"`
 	Tpi      classMap `json:"tpi"`
@@ -120,6 +122,16 @@ type rec struct {
 	STyp  string     `json:"styp"`
 	First dupSummary `json:"first"`
 	Last  dupSummary `json:"last"`
+	// edge: the proto-event is an ambiguous text (a member name repeated below the top level): Build may refuse it
+	MayRefuse bool `json:"mayrefuse"`
+	// alias: the operation O made on handle Who; Cold: no accessor of the other handles was read before
+	Who  string `json:"who"`
+	O    string `json:"o"`
+	Cold bool   `json:"cold"`
+	// tamper, sizes: what the tampering weighs ("none" | "bulk30" | "bulk70" | "pad"); Refused: what surfaces is over
+	// the size limit, no event is handed out
+	Bulk    string `json:"bulk"`
+	Refused bool   `json:"refused"`
 	// probe (re-execution of a rejected trace line)
 	Probe *traceLine `json:"probe,omitempty"`
 }
@@ -354,6 +366,15 @@ func numValue(class string) json.RawMessage {
 		return json.RawMessage(`2.0`)
 	case "nested":
 		return json.RawMessage(`{"a":[7,1.5],"b":"x"}`)
+	// a member name repeated below the top level (RepKinds); rep-content: see contentOf
+	case "rep-content":
+		return json.RawMessage(`"second"`)
+	case "rep-nested":
+		return json.RawMessage(`{"a":1,"b":"x","a":2}`)
+	case "rep-deeper":
+		return json.RawMessage(`{"m.relates_to":{"event_id":"$a","rel_type":"m.thread","event_id":"$b"}}`)
+	case "rep-array":
+		return json.RawMessage(`[1,{"user_id":"@a:` + hs1 + `","user_id":"@b:` + hs1 + `"},"x"]`)
 	}
 	panic("harness: unknown number class " + class)
 }
@@ -397,9 +418,35 @@ func contentOf(ver string, p *protoRec, seed int64) json.RawMessage {
 			m[k] = numValue(tok)
 			continue
 		}
+		if k == "zz_big" {
+			m[k] = q(strings.Repeat("0123456789abcdef", sizeOfToken(tok)/16))
+			continue
+		}
 		m[k] = valueOf(ver, p.Type, k, tok, seed)
 	}
-	return marshalRawMap(m)
+	out := marshalRawMap(m)
+	if p.Con["zz_num"] == "rep-content" {
+		// the member zz_num stands twice in the content, first and last
+		rest := out[1:]
+		if len(m) > 0 {
+			rest = append([]byte(","), rest...)
+		}
+		out = append([]byte(`{"zz_num":"first"`), rest...)
+	}
+	return out
+}
+
+// sizeOfToken: the weights of EventIdentity.tla (KiB) in bytes.
+func sizeOfToken(tok string) int {
+	switch tok {
+	case "big40":
+		return 40 * 1024
+	case "bulk30":
+		return 30 * 1024
+	case "bulk70":
+		return 70 * 1024
+	}
+	panic("harness: unknown size token " + tok)
 }
 
 // marshalRawMap writes an object with sorted keys without re-escaping the raw values.
@@ -568,6 +615,14 @@ func protoOf(ver string, p *protoRec, seed int64) built {
 		pe.Depth = 7 + seed%5
 	case "d3":
 		pe.Depth = 9007199254740991
+	case "d4":
+		pe.Depth = 9007199254740992
+	case "d5":
+		pe.Depth = 9007199254740993
+	case "d6":
+		pe.Depth = math.MaxInt64 - 1
+	case "d7":
+		pe.Depth = math.MaxInt64
 	default:
 		panic("harness: unknown depth token " + p.Depth)
 	}
@@ -606,6 +661,8 @@ func protoOf(ver string, p *protoRec, seed int64) built {
 		pe.Unsigned = spec.RawJSON(`{"age":1234}`)
 	case "u2":
 		pe.Unsigned = spec.RawJSON(`{"age":99,"prev_content":{"membership":"leave"}}`)
+	case "urep": // a nested object names a member twice
+		pe.Unsigned = spec.RawJSON(`{"age":17,"prev_content":{"membership":"leave","displayname":"a","membership":"join"}}`)
 	default:
 		panic("harness: unknown unsigned token " + p.Unsigned)
 	}
@@ -771,6 +828,72 @@ func sameJSONBytes(a, b []byte) bool {
 		return false
 	}
 	return sameJSON(x, y)
+}
+
+// sameMembers compares two JSON texts as trees in which an object is the multiset of its (name, value) members: the
+// comparison for texts that name a member twice (the usual decoders keep one copy only).
+func sameMembers(a, b []byte) bool {
+	x, ok1 := memberForm(a)
+	y, ok2 := memberForm(b)
+	return ok1 && ok2 && x == y
+}
+
+func memberForm(b []byte) (string, bool) {
+	d := json.NewDecoder(bytes.NewReader(b))
+	d.UseNumber()
+	s, err := memberValue(d)
+	if err != nil || d.More() {
+		return "", false
+	}
+	return s, true
+}
+
+func memberValue(d *json.Decoder) (string, error) {
+	t, err := d.Token()
+	if err != nil {
+		return "", err
+	}
+	switch v := t.(type) {
+	case json.Delim:
+		var parts []string
+		if v == '{' {
+			for d.More() {
+				k, err := d.Token()
+				if err != nil {
+					return "", err
+				}
+				val, err := memberValue(d)
+				if err != nil {
+					return "", err
+				}
+				parts = append(parts, qs(k.(string))+":"+val)
+			}
+			if _, err := d.Token(); err != nil {
+				return "", err
+			}
+			sort.Strings(parts)
+			return "{" + strings.Join(parts, ",") + "}", nil
+		}
+		for d.More() {
+			val, err := memberValue(d)
+			if err != nil {
+				return "", err
+			}
+			parts = append(parts, val)
+		}
+		if _, err := d.Token(); err != nil {
+			return "", err
+		}
+		return "[" + strings.Join(parts, ",") + "]", nil
+	case json.Number:
+		if r, ok := new(big.Rat).SetString(string(v)); ok {
+			return r.RatString(), nil
+		}
+		return string(v), nil
+	case string:
+		return qs(v), nil
+	}
+	return fmt.Sprint(t), nil
 }
 
 func keysOf(m map[string]interface{}) []string {
